@@ -111,6 +111,90 @@ def bound_column(rqjson):
     return ("elsewhere",)
 
 
+HOOK = "verif:lowerer_op"
+
+
+def trace_passthroughs(src, entries):
+    """Site-independent oracle on the lowerer's operation trace (hook lowerer-op-trace, 120eb8c; read-only use):
+    every RQ expression the Lowerer produced -- also in programs that fail later -- is searched for
+      * an SString that consists of ONE literal piece which is exactly the source text at the expression's span: the
+        source spells a bare word there, not an s-string, i.e. lower_expr's unresolved-ident fallback fired
+        (exempt: the type operand of std.as, `x | as int`, which reaches SQL that way by design);
+      * a ColumnRef to a column id that no earlier operation of the trace introduced.
+    Returns (number of hook lines, [(word, span)], [(cid, span)])."""
+    n = 0
+    words, unknown = [], []
+    known = set()
+    lines = src.split("\n")
+
+    def text_at(span):
+        m = re.match(r"^(\d+):(\d+)-(\d+)$", span or "")
+        if not m:
+            return None
+        return src[int(m.group(2)):int(m.group(3))]
+
+    def walk(v, exempt=False):
+        if isinstance(v, dict):
+            k = v.get("kind")
+            if isinstance(k, dict) and "span" in v:
+                if "SString" in k:
+                    items = k["SString"]
+                    if len(items) == 1 and isinstance(items[0], dict) and "String" in items[0] and not exempt:
+                        t_ = text_at(v.get("span"))
+                        w_ = items[0]["String"]
+                        if t_ is not None and (t_ == w_ or re.match(r"^(?:[A-Za-z_][A-Za-z0-9_]*\.)+%s$" % re.escape(w_), t_)):
+                            words.append((w_, v.get("span")))
+                if "ColumnRef" in k and isinstance(k["ColumnRef"], int) and k["ColumnRef"] not in known:
+                    unknown.append((k["ColumnRef"], v.get("span")))
+                if "Operator" in k and isinstance(k["Operator"], dict) and k["Operator"].get("name") == "std.as":
+                    args = k["Operator"].get("args") or []
+                    for i, a_ in enumerate(args):
+                        walk(a_, exempt=(i == 0))
+                    return
+            for x in v.values():
+                walk(x)
+        elif isinstance(v, list):
+            for x in v:
+                walk(x)
+
+    for e in entries:
+        m = e.get("Message") if isinstance(e, dict) else None
+        if not m or not m.startswith(HOOK + " "):
+            continue
+        n += 1
+        try:
+            d = json.loads(m[len(HOOK) + 1:])
+        except ValueError:
+            continue
+        op, dd = d.get("op"), d.get("d") or {}
+        if op == "instance":
+            for c in dd.get("columns") or []:
+                if isinstance(c, list) and len(c) == 2 and isinstance(c[1], int):
+                    known.add(c[1])
+        elif op == "declare":
+            if "compute" in dd:
+                walk(dd["compute"].get("expr"))
+                if isinstance(dd["compute"].get("id"), int):
+                    known.add(dd["compute"]["id"])
+            if isinstance(dd.get("cid"), int):
+                known.add(dd["cid"])
+        elif op == "push":
+            walk(dd.get("transform"))
+        elif op in ("redirect", "loop_begin", "loop_end", "relation_end", "table", "extern", "reserve", "inline_table", "leaf", "relation_begin"):
+            # ids introduced by other bookkeeping operations count as known; expressions do not occur in them
+            def ids(v):
+                if isinstance(v, dict):
+                    for kk, x in v.items():
+                        if kk in ("cid", "id") and isinstance(x, int):
+                            known.add(x)
+                        ids(x)
+                elif isinstance(v, list):
+                    for x in v:
+                        ids(x)
+            ids(dd)
+    return n, words, unknown
+
+
 def judge_module(ck, c, classify_module):
     """declarations inside modules: the model's verdict (faithful to resolve_ident) vs the implementation, and the
     property's verdict (reference/spec/modules.md: own module, then the parents, then the root) vs both"""
@@ -434,6 +518,22 @@ def run():
         if c["kind"] == "base":
             base_ok[c["pi"]] = c["impl"] == "ok"
 
+    # ------------------------------------------------------------------ the lowerer's trace of every case (hook lowerer-op-trace)
+    traced = [c for c in cases if c["stream"] in ("well-scoped", "edit-a-dropped-column", "edit-b-ambiguous-name", "edit-f-module-or-relation-as-value", "modules")
+              or c["stream"] == "edit-e-scalar-for-relation"]
+    tr = harness("log", [{"src": c["src"], "target": "sql.sqlite", "want": [], "msg_prefix": HOOK} for c in traced])
+    hook_lines = 0
+    for c, a in zip(traced, tr):
+        n_, words, unknown = trace_passthroughs(c["src"], a.get("entries", []) if isinstance(a, dict) else [])
+        hook_lines += n_
+        c["trace"] = {"lines": n_, "words": words, "unknown_cids": unknown, "ok": isinstance(a, dict) and "ok" in a}
+    ck.coverage["lowerer_trace"] = {"programs": len(traced), "hook_lines": hook_lines,
+                                    "programs_that_reached_lowering": sum(1 for c in traced if c["trace"]["lines"] > 0),
+                                    "of_which_rejected_later": sum(1 for c in traced if c["trace"]["lines"] > 0 and not c["trace"]["ok"])}
+    if traced and hook_lines == 0:
+        ck.violation("the tree under test does not emit `verif:lowerer_op` lines (hook lowerer-op-trace, 120eb8c, is missing or the harness was built without cfg(prqlc_verif)): the passthrough oracle cannot run",
+                     {"kind": "hook-missing", "hook": HOOK}, no_input=True)
+
     def classify(case):
         # C10-F2: the model itself predicts the passthrough, and since a131b2a that is only the bare name `that` outside a
         # join condition (Props/C10.v passthrough_only_bare_that), as an expression or as an interpolated item of an s-string;
@@ -547,6 +647,36 @@ def run():
             # the model binds a column but the implementation rejects: the model is wrong about this scope
             # (OPassthrough / OTuple / OValue verdicts are about a scalar position; the site may still reject them by type)
             ck.violation("the model resolves the edited reference (%s) but the implementation rejects it (%s)" % (mk, c["impl"]), dict(rep, answer=str(a)[:300]))
+
+    # ------------------------------------------------------------------ passthrough oracle: judged for every traced case, whatever compile said
+    for c in cases:
+        t = c.get("trace")
+        if not t or not t["lines"]:
+            continue
+        st = "lowerer-trace"
+        ck.count(st, c["src"])
+        mv = c.get("model")
+        mk = None
+        if mv is not None and c["kind"] in ("edit", "ref", "value"):
+            mk = outcome_kind(mv)
+        allowed = set()
+        if c["kind"] == "edit" and mk == "OPassthrough" and c.get("name"):
+            allowed.add(c["name"].split(".")[-1])
+        found = {w for w, _ in t["words"]}
+        ck.stat(st, "reached-lowering:" + ("compiled" if t["ok"] else "rejected-later"))
+        if allowed:
+            ck.stat(st, "model-predicts-passthrough:" + ("seen" if allowed <= found else "NOT-seen"))
+            if not allowed <= found and t["ok"]:
+                ck.violation("the model predicts that `%s` reaches SQL unresolved, the program compiles, but the lowerer's trace has no such expression" % sorted(allowed)[0],
+                             {"program": c["src"], "stream": c["stream"], "model": str(mv), "trace_words": t["words"]})
+        for w in sorted(found - allowed):
+            ck.stat(st, "unresolved-word:" + w)
+            ck.disagreement("the lowerer passed the bare word `%s` through to SQL (lower_expr's unresolved-ident fallback) in a program whose names are all accounted for: %s" % (w, c["stream"]),
+                            {"program": c["src"], "stream": c["stream"], "impl": "ok", "name": w, "model_kind": "OPassthrough" if w == "that" else str(mk),
+                             "spans": [sp for ww, sp in t["words"] if ww == w], "compiled": t["ok"], "oracle": "lowerer-trace"}, classify)
+        for cid, sp in t["unknown_cids"]:
+            ck.violation("the lowerer emitted a ColumnRef to column id %d that no earlier operation of its trace introduced" % cid,
+                         {"program": c["src"], "stream": c["stream"], "span": sp, "oracle": "lowerer-trace"})
 
     # ------------------------------------------------------------------ recorded findings: every replay, open or fixed.
     # An open one must still compile (it is counted as a hit of its own id); a fixed one must be rejected -- a fixed
